@@ -27,6 +27,7 @@ pub struct FnSpec {
     pub lettype: BTreeMap<String, String>,
     pub whilelet: BTreeSet<usize>,
     pub foriter: BTreeSet<usize>,
+    pub forloop: BTreeSet<usize>,
     pub may_panic: BTreeSet<usize>,
     pub letsplit: Vec<String>,
     pub refop: Vec<String>,
@@ -400,6 +401,7 @@ pub fn parse(text: &str) -> Result<Unit, String> {
                     }
                     "whilelet" => { for k in a.split_whitespace() { f.whilelet.insert(k.parse().map_err(|_| format!("line {ln}: @whilelet K"))?); } }
                     "foriter" => { for k in a.split_whitespace() { f.foriter.insert(k.parse().map_err(|_| format!("line {ln}: @foriter K"))?); } }
+                    "forloop" => { for k in a.split_whitespace() { f.forloop.insert(k.parse().map_err(|_| format!("line {ln}: @forloop K"))?); } }
                     "may-panic" => { for k in a.split_whitespace() { f.may_panic.insert(k.parse().map_err(|_| format!("line {ln}: @may-panic K"))?); } }
                     "letsplit" => f.letsplit.extend(a.split_whitespace().map(String::from)),
                     "refop" => f.refop.extend(a.split_whitespace().map(String::from)),
